@@ -32,7 +32,7 @@ def run(chk):
 def r18a(chk, rid='R18.a'):
     chk.rule(rid, 'hash shortening is lossless: CSSSerializer._hash is a decision procedure on the characters of its argument; evaluated on its syntax tree for representatives of every case (length 4/7/other, each pair equal/unequal, preference on/off) it shortens exactly #aabbcc -> #abc under minimizeColorHash and returns everything else unchanged')
     fn = chk.repo.fn(SER, 'CSSSerializer._hash')
-    ev = Evaluator(fn)
+    ev = Evaluator(fn, module=chk.repo.mod(SER), cls='CSSSerializer')
     cases = []
     for val in ('#aabbcc', '#AAbbCC', '#aabbcd', '#aabccc', '#abbbcc', '#abc', '#aabbccdd', '#aabbc', '#', '#1122334', '#aAbbcc', '#112233'):
         for pref in (True, False):
